@@ -116,6 +116,7 @@ func main() {
 		r := NewRunner(cfg)
 		r.extra = *extra
 		r.serial = optVal(*extra, "serial", "") == "1"
+		r.sy.prefix = optVal(*extra, "prefix", "") == "1"
 		if *tlclog != "" {
 			f, err := os.Create(*tlclog)
 			if err != nil {
@@ -371,6 +372,7 @@ func replayOne(cfg Config, path string) int {
 	r.extra = v.X
 	r.one = true
 	r.serial = optVal(v.X, "serial", "") == "1"
+	r.sy.prefix = optVal(v.X, "prefix", "") == "1"
 	l, _, err := parseTLCLine(string(v.Line))
 	if err != nil {
 		fmt.Fprintln(os.Stderr, "ERROR", err)
